@@ -560,12 +560,14 @@ def generate(tier, seed):
     u = np.arange(14)[::-1] * 2.0 + 7.0
     w = np.array([1.0, 2.0, 0.5, 3.0, 1.5, 4.0, 0.25, 0.75, 2.5, 1.25, 5.0, 3.5, 2.25, 0.125])
     for k, (e, n, blk) in enumerate(geometry_configs(full=(tier != "quick"))):
+        if tier == "quick" and k % 4 == 3 and "region" not in blk:
+            continue        # quick tier: half of the inferred-region twins are left to C09 and the thorough tier
         kw = dict(blk, center_coordinates=(k % 3 != 0), drop_coords=bool(k % 2), uncertainty=(k % 3 == 1))
         if k % 3 == 0:
             cases.append(make_bm_case(vd, [e, n, u.copy()], [d.copy(), d * d], None, kw, "bm-geometry"))
         else:
             cases.append(make_bm_case(vd, [e, n, u.copy()], [d.copy(), -d], [w.copy(), w[::-1].copy()], kw, "bm-geometry"))
-    n_rand = 300 if tier == "quick" else 2800
+    n_rand = 210 if tier == "quick" else 2800
     modes = ["unweighted", "uncertainty", "wvariance", "unweighted", "uncertainty", "wvariance", "reject"]
     for i in range(n_rand):
         mode = modes[i % len(modes)]
@@ -581,7 +583,7 @@ def generate(tier, seed):
         elif kw.get("_twice"):
             kind += "-reused"
         cases.append(make_bm_case(vd, coords, data, weights, kw, kind))
-    cases.extend(v2w_cases(rnd, vd, 250 if tier == "quick" else 2400))
+    cases.extend(v2w_cases(rnd, vd, 160 if tier == "quick" else 2400))
     return cases
 
 
